@@ -12,23 +12,34 @@
 (* and messages are never an argument of the rewrite.  exec[c] is the set  *)
 (* of paths that are executable in commit c; Chmod makes a commit that     *)
 (* changes nothing but one path's mode.                                    *)
+(* attrs[c] says which paths the .gitattributes files committed in c mark  *)
+(* filter=lfs: p1 through a line of the top-level file, p2 through a line  *)
+(* of the file in p2's own directory (SetAttr adds or removes such a       *)
+(* line in a commit of its own).  Fixup is `migrate import --fixup`: in    *)
+(* every commit exactly the ordinary files that commit's own attributes    *)
+(* mark become pointers.                                                   *)
 (***************************************************************************)
 EXTENDS Repo
 
-CONSTANTS Selections       \* sets of paths the --include pattern can denote
+CONSTANTS Selections,      \* sets of paths the --include pattern can denote
+          WithAttrs        \* TRUE: histories may carry .gitattributes lines (SetAttr) and end in a --fixup
 
 VARIABLES repr,     \* <<commit, path>> -> "none" | "raw" | "ptr" after the rewrites so far
           tagged,   \* commit carrying the tag v1 (annotated), or NoCommit
           phase,    \* "history" | "imported" | "exported"
           exec,     \* commit -> set of executable paths (never touched by a rewrite)
-          links     \* commit -> set of paths that are symbolic links (their blob is the target; never converted)
-mvars == <<rvars, repr, tagged, phase, exec, links, steps, hist>>
-MView == <<rvars, repr, tagged, phase, exec, links>>
+          links,    \* commit -> set of paths that are symbolic links (their blob is the target; never converted)
+          attrs     \* commit -> [root, nested]: p1 marked by the top-level .gitattributes, p2 by the one in its directory
+mvars == <<rvars, repr, tagged, phase, exec, links, attrs, steps, hist>>
+MView == <<rvars, repr, tagged, phase, exec, links, attrs>>
 
 ReprOf(blob) == IF blob = "none" THEN "none" ELSE IF blob = "raw" THEN "raw" ELSE "ptr"
 CurRepr == [c \in 1..Len(commits) |-> [p \in Paths |-> ReprOf(commits[c].tree[p])]]
 
-MInit == RepoInit /\ repr = <<>> /\ tagged = NoCommit /\ phase = "history" /\ exec = <<>> /\ links = <<>>
+MInit == RepoInit /\ repr = <<>> /\ tagged = NoCommit /\ phase = "history" /\ exec = <<>> /\ links = <<>> /\ attrs = <<>>
+NoAttrs == [root |-> FALSE, nested |-> FALSE]
+AttrsOf(c) == IF c = NoCommit THEN NoAttrs ELSE attrs[c]
+Tracked(c) == (IF attrs[c].root THEN {"p1"} ELSE {}) \cup (IF attrs[c].nested THEN {"p2"} ELSE {})
 
 Hist == phase = "history" /\ UNCHANGED <<repr, tagged, phase>>
 ExecOf(c) == IF c = NoCommit THEN {} ELSE exec[c]
@@ -38,14 +49,16 @@ LinksOf(c) == IF c = NoCommit THEN {} ELSE links[c]
 MCommit(b, p, blob, g) == /\ Hist /\ Commit(b, p, blob, g)
                           /\ LET parent == IF br[b] = NoCommit /\ b # "main" THEN br["main"] ELSE br[b]
                              IN exec' = Append(exec, ExecOf(parent) \ {p}) /\ links' = Append(links, LinksOf(parent) \ {p})
+                                /\ attrs' = Append(attrs, AttrsOf(parent))
 MMerge(b, o)           == /\ Hist /\ Merge(b, o) /\ exec' = Append(exec, {}) /\ links' = Append(links, {})
+                          /\ attrs' = Append(attrs, attrs[br[b]])          \* the attribute files of the branch merged into
 \* git update-index --chmod=+x / -x ; git commit: nothing but the mode of p changes
 Chmod(b, p) == /\ Hist /\ Len(commits) < MaxCommits /\ br[b] # NoCommit /\ commits[br[b]].tree[p] # "none"
                /\ commits' = Append(commits, [par |-> {br[b]}, tree |-> commits[br[b]].tree, age |-> commits[br[b]].age])
                /\ br' = [br EXCEPT ![b] = Len(commits) + 1] /\ head' = b
                /\ p \notin links[br[b]]
                /\ exec' = Append(exec, IF p \in exec[br[b]] THEN exec[br[b]] \ {p} ELSE exec[br[b]] \cup {p})
-               /\ links' = Append(links, links[br[b]])
+               /\ links' = Append(links, links[br[b]]) /\ attrs' = Append(attrs, attrs[br[b]])
                /\ UNCHANGED <<rr, rt, local, server, everRemote>>
                /\ Log([a |-> "chmod", b |-> b, p |-> p, x |-> (p \notin exec[br[b]])])
 \* a type change only: the ordinary file p becomes a symbolic link whose target is the very same blob
@@ -54,11 +67,21 @@ Relink(b, p) == /\ Hist /\ Len(commits) < MaxCommits /\ br[b] # NoCommit /\ comm
                 /\ commits' = Append(commits, [par |-> {br[b]}, tree |-> commits[br[b]].tree, age |-> commits[br[b]].age])
                 /\ br' = [br EXCEPT ![b] = Len(commits) + 1] /\ head' = b
                 /\ links' = Append(links, IF p \in links[br[b]] THEN links[br[b]] \ {p} ELSE links[br[b]] \cup {p})
-                /\ exec' = Append(exec, exec[br[b]] \ {p})
+                /\ exec' = Append(exec, exec[br[b]] \ {p}) /\ attrs' = Append(attrs, attrs[br[b]])
                 /\ UNCHANGED <<rr, rt, local, server, everRemote>>
                 /\ Log([a |-> "relink", b |-> b, p |-> p, link |-> (p \notin links[br[b]])])
+\* a commit that adds or removes one .gitattributes line and nothing else
+SetAttr(b, which) ==
+  /\ WithAttrs /\ Hist /\ Len(commits) < MaxCommits /\ br[b] # NoCommit /\ which \in {"root", "nested"}
+  /\ commits' = Append(commits, [par |-> {br[b]}, tree |-> commits[br[b]].tree, age |-> commits[br[b]].age])
+  /\ br' = [br EXCEPT ![b] = Len(commits) + 1] /\ head' = b
+  /\ attrs' = Append(attrs, IF which = "root" THEN [attrs[br[b]] EXCEPT !.root = ~@] ELSE [attrs[br[b]] EXCEPT !.nested = ~@])
+  /\ exec' = Append(exec, exec[br[b]]) /\ links' = Append(links, links[br[b]])
+  /\ UNCHANGED <<rr, rt, local, server, everRemote>>
+  /\ Log([a |-> "setattr", b |-> b, which |-> which, on |-> (IF which = "root" THEN ~attrs[br[b]].root ELSE ~attrs[br[b]].nested)])
+
 Tag(b) == /\ phase = "history" /\ tagged = NoCommit /\ br[b] # NoCommit /\ tagged' = br[b]
-          /\ UNCHANGED <<commits, br, rr, rt, head, local, server, everRemote, repr, phase, exec, links>>
+          /\ UNCHANGED <<commits, br, rr, rt, head, local, server, everRemote, repr, phase, exec, links, attrs>>
           /\ Log([a |-> "tag", b |-> b])
 
 Import(sel) ==
@@ -66,16 +89,26 @@ Import(sel) ==
   /\ repr' = [c \in 1..Len(commits) |-> [p \in Paths |->
                  IF p \in sel /\ commits[c].tree[p] = "raw" /\ p \notin links[c] THEN "ptr" ELSE ReprOf(commits[c].tree[p])]]
   /\ phase' = "imported"
-  /\ UNCHANGED <<commits, br, rr, rt, head, local, server, everRemote, tagged, exec, links>>
-  /\ Log([a |-> "import", sel |-> sel, repr |-> repr', exec |-> exec, links |-> links, parents |-> [c \in 1..Len(commits) |-> commits[c].par],
+  /\ UNCHANGED <<commits, br, rr, rt, head, local, server, everRemote, tagged, exec, links, attrs>>
+  /\ Log([a |-> "import", sel |-> sel, repr0 |-> CurRepr, repr |-> repr', exec |-> exec, links |-> links, parents |-> [c \in 1..Len(commits) |-> commits[c].par],
           heads |-> br, tagged |-> tagged])
 
 Export(sel) ==
   /\ phase = "imported" /\ sel \in Selections
   /\ repr' = [c \in 1..Len(commits) |-> [p \in Paths |-> IF p \in sel /\ repr[c][p] = "ptr" THEN "raw" ELSE repr[c][p]]]
   /\ phase' = "exported"
-  /\ UNCHANGED <<commits, br, rr, rt, head, local, server, everRemote, tagged, exec, links>>
+  /\ UNCHANGED <<commits, br, rr, rt, head, local, server, everRemote, tagged, exec, links, attrs>>
   /\ Log([a |-> "export", sel |-> sel, repr |-> repr', exec |-> exec, links |-> links, parents |-> [c \in 1..Len(commits) |-> commits[c].par],
+          heads |-> br, tagged |-> tagged])
+
+\* git lfs migrate import --fixup --everything: per commit, what that commit's own attributes mark
+Fixup ==
+  /\ WithAttrs /\ phase = "history" /\ Len(commits) > 0
+  /\ repr' = [c \in 1..Len(commits) |-> [p \in Paths |->
+                 IF p \in Tracked(c) /\ commits[c].tree[p] = "raw" /\ p \notin links[c] THEN "ptr" ELSE ReprOf(commits[c].tree[p])]]
+  /\ phase' = "fixedup"
+  /\ UNCHANGED <<commits, br, rr, rt, head, local, server, everRemote, tagged, exec, links, attrs>>
+  /\ Log([a |-> "fixup", sel |-> {}, tracked |-> [c \in 1..Len(commits) |-> Tracked(c)], repr0 |-> CurRepr, repr |-> repr', exec |-> exec, links |-> links, parents |-> [c \in 1..Len(commits) |-> commits[c].par],
           heads |-> br, tagged |-> tagged])
 
 MNext == \/ \E b \in Branches, p \in Paths, blob \in Blobs, g \in Ages : MCommit(b, p, blob, g)
@@ -83,15 +116,19 @@ MNext == \/ \E b \in Branches, p \in Paths, blob \in Blobs, g \in Ages : MCommit
          \/ \E b \in Branches : Tag(b)
          \/ \E b \in Branches, p \in Paths : Chmod(b, p)
          \/ \E b \in Branches, p \in Paths : Relink(b, p)
+         \/ \E b \in Branches, w \in {"root", "nested"} : SetAttr(b, w)
+         \/ Fixup
          \/ \E s \in Selections : Import(s) \/ Export(s)
 MSpec == MInit /\ [][MNext]_mvars
 
 \* C12 on the design: exactly the selected ordinary files change representation on import, and
 \* export after import of the same selection restores every representation
+OnlyMarkedChange == phase = "fixedup" =>
+   \A c \in 1..Len(commits), p \in Paths : repr[c][p] # ReprOf(commits[c].tree[p]) <=> (commits[c].tree[p] = "raw" /\ p \in Tracked(c) /\ p \notin links[c])
 OnlySelectedChange == phase = "imported" =>
    \A c \in 1..Len(commits), p \in Paths : repr[c][p] # ReprOf(commits[c].tree[p]) => (commits[c].tree[p] = "raw" /\ p \notin links[c])
 ExportRestores == [][\A s \in Selections : (Export(s) /\ hist[Len(hist)].a = "import" /\ hist[Len(hist)].sel = s) =>
                         \A c \in 1..Len(commits), p \in Paths : (commits[c].tree[p] = "raw" => repr'[c][p] = "raw")]_mvars
 
-EmitMigrate == (Emit /\ hist'[Len(hist')].a \in {"import", "export"}) => CSVWrite("%1$s", <<ToJson(hist')>>, IOEnv.OUT)
+EmitMigrate == (Emit /\ hist'[Len(hist')].a \in {"import", "export", "fixup"}) => CSVWrite("%1$s", <<ToJson(hist')>>, IOEnv.OUT)
 =============================================================================
